@@ -138,6 +138,7 @@ int main(int argc, char** argv) {
     } else if (kind == "cond") {
       r.set("min", evalArith(c["fmin"].asStr(), 1.)).set("full", evalArith(c["ffull"].asStr(), 1.));
       r.set("cxx", cxxFormula(c["fmin"].asStr()));
+      r.set("dx", evalDeriv(c["fmin"].asStr(), "x", 1.)).set("dy", evalDeriv(c["fmin"].asStr(), "y", 1.));
     } else if (kind == "deps") {
       using namespace tfel::math::parser;
       const double d0 = double(c["d0"].asInt());
